@@ -69,7 +69,9 @@ def per_shard(tier):
 
 
 def plan(tier, seed):
-    return [{"name": "s%02d" % i, "shard": i, "timeout": 1500 if tier == "quick" else 6000} for i in range(16)]
+    specs = [{"name": "s%02d" % i, "shard": i, "timeout": 1500 if tier == "quick" else 6000} for i in range(16)]
+    specs += [{"name": "prog%d" % i, "kind": "prog", "shard": 40 + i, "datasets": 6 if tier == "quick" else 60, "timeout": 6000} for i in range(4)]
+    return specs
 
 
 def required(tier):
@@ -80,6 +82,8 @@ def required(tier):
         "mode_checked": 4000 * k, "support_checked": 4000 * k, "support_with_dosage_variants": 400 * k,
         "support_differs_from_mode_genotype_support": 40 * k,
         "allele_frequencies_checked": 3000 * k, "repeated_unit_in_genotype": 2500 * k, "posterior_frequencies_checked": 2000 * k, "posterior_frequencies_order_variants": 300 * k,
+        "prog_traces_checked": 100 * k, "prog_modes_checked": 60 * k, "prog_allele_vectors_checked": 200 * k, "prog_mci_checked": 80 * k,
+        "prog_traces_relabelled_after_masking": 5 * k,
         "as_array_checked": 2000 * k, "incongruence_checked": 4000 * k, "incongruence_decided_0": 2000 * k,
         "incongruence_decided_1": 300 * k, "incongruence_decided_2": 300 * k, "individual_checked": 600 * k,
         "individual_padded_checked": 250 * k,
@@ -940,7 +944,177 @@ def run_case(family, seed, shard, index, col):
     return RUNNERS[family](rng, col, payload)
 
 
+def run_prog(tier, seed, spec, col):
+    """`mchap call` in-process: the full trace of every sample's sampler is captured where the program receives it
+    (CallingMCMC.fit), and the GT / GPM / SPM / MCI / AFP / ACP / AOP the program PRINTS must be the functionals of the
+    steps retained after --mcmc-burn (all chains), with --mcmc-chain-incongruence-threshold as the MCI threshold."""
+    import os
+    import shutil
+    import warnings
+
+    from mchap.application import call as CALL
+
+    from vlib import cli, datasets, env, hapvcf, monitors, vcfparse
+
+    for dI in range(spec["datasets"]):
+        rng = gen.rng_for(seed, ID, spec["shard"], dI)
+        root = env.workdir("c14-%s-%d" % (spec["name"], dI))
+        shutil.rmtree(root, ignore_errors=True)
+        ds = datasets.make_dataset(rng, root, n_samples=int(rng.integers(2, 4)), n_loci=int(rng.integers(2, 5)), ploidy=[2, 4, 6], depth=(0, 6), contig_len=600,
+                                   snv_range=(1, 4), hostile=0.05, err=0.03)
+        recs = []
+        for L in ds.loci:
+            ref = ds.contigs[L["contig"]][L["start"]:L["stop"]]
+            alts = []
+            for smp in ds.samples:
+                for hap in ds.genotypes[(smp, L["name"])]:
+                    sq = datasets.hap_sequence(ds.contigs, L, hap, L["start"], L["stop"])
+                    if sq != ref and sq not in alts:
+                        alts.append(sq)
+            r = {"contig": L["contig"], "pos0": L["start"], "id": L["name"], "ref": ref, "alts": alts[:5]}
+            w = np.round(rng.dirichlet(np.ones(1 + len(r["alts"]))), 3)
+            if len(r["alts"]) >= 2 and rng.random() < 0.4:
+                w[int(rng.integers(0, len(w)))] = 0.0      # relabelling after masking
+            if w.sum() <= 0:
+                w[-1] = 1.0
+            r["info"] = {"AFP": ",".join(repr(float(x)) for x in w)}
+            recs.append(r)
+        hv = hapvcf.write(os.path.join(root, "haps.vcf"), hapvcf.render(ds.contigs, recs, info_defs=[{"ID": "AFP", "Number": "R", "Type": "Float"}]))
+        pf = os.path.join(root, "ploidy.txt")
+        with open(pf, "w") as fh:
+            for smp in ds.samples:
+                fh.write("%s\t%d\n" % (smp, ds.ploidy[smp]))
+        steps = int(rng.choice([30, 60, 120]))
+        burn = int(rng.choice([0, 1, steps // 3, steps // 2, steps - 1]))
+        chains = int(rng.choice([1, 2, 3, 4]))
+        thr = float(rng.choice([0.6, 0.6, 0.3, 0.5, 0.9]))
+        use_freq = rng.random() < 0.5
+        argv = ["call", "--haplotypes", hv, "--bam"] + ds.bams + ["--ploidy", pf, "--mcmc-steps", str(steps), "--mcmc-burn", str(burn), "--mcmc-chains", str(chains),
+                "--mcmc-seed", str(dI % 4), "--mcmc-chain-incongruence-threshold", repr(thr), "--inbreeding", repr(float(rng.choice([0.0, 0.2]))),
+                "--report", "AFP", "ACP", "AOP"] + (["--prior-frequencies", "AFP"] if use_freq else [])
+        case = {"family": "prog", "kind": "prog", "seed": seed, "shard": spec["shard"], "index": dI, "steps": steps, "burn": burn, "chains": chains, "threshold": thr}
+        col.case(case, nontrivial=chains > 1 and burn > 0)
+        captured = []
+        Real = CALL.CallingMCMC
+
+        class Spy:
+            def __init__(self, **kw):
+                self.kw = kw
+                self.real = Real(**kw)
+
+            def fit(self, **kw2):
+                tr = self.real.fit(**kw2)
+                captured.append({"haplotypes": np.array(self.kw["haplotypes"], copy=True), "genotypes": np.array(tr.genotypes, copy=True), "ploidy": int(self.kw["ploidy"])})
+                return tr
+
+        per_locus, lines = [], []
+        try:
+            with warnings.catch_warnings():
+                warnings.simplefilter("error", RuntimeWarning)
+                with monitors.patched((CALL, "CallingMCMC", Spy)):
+                    po = CALL.program.cli(["mchap"] + argv)
+                    seen_data = []
+                    real_csg = po.call_sample_genotypes
+
+                    def spy_csg(data):
+                        seen_data.append(data)
+                        return real_csg(data)
+
+                    po.call_sample_genotypes = spy_csg
+                    header = "\n".join(str(h) for h in po.header())
+                    for locus in po.loci():
+                        lo = len(captured)
+                        line = po.call_locus(locus, po.sample_bams)
+                        per_locus.append((seen_data[-1], lo, len(captured), str(line)))
+        except Exception as ex:  # noqa: BLE001
+            cli.relax_warnings()
+            col.inconclusive_note("call raised on a generated dataset: %s: %s" % (type(ex).__name__, str(ex)[:200]))
+            shutil.rmtree(root, ignore_errors=True)
+            continue
+        cli.relax_warnings()
+        hdr, outs = vcfparse.parse(header + "\n" + "\n".join(x[3] for x in per_locus) + "\n")
+        stop = False
+        for (data, lo, hi, _), out in zip(per_locus, outs):
+            if stop:
+                break
+            S = list(data.samples)
+            if hi == lo:
+                continue
+            if hi - lo != len(S):
+                col.inconclusive_note("call ran %d samplers for %d samples" % (hi - lo, len(S)))
+                break
+            full = np.asarray(data.locus.encode_haplotypes())
+            n_full = len(full)
+            for smp, c in zip(S, captured[lo:hi]):
+                where = "call --mcmc-steps %d --mcmc-burn %d --mcmc-chains %d, locus %s sample %s" % (steps, burn, chains, data.locus.name, smp)
+                labels = []
+                for h in c["haplotypes"]:
+                    m = [k for k in range(n_full) if np.array_equal(full[k], h)]
+                    labels.append(m[0] if m else None)
+                g = c["genotypes"]
+                if None in labels or g.ndim != 3 or g.shape[:2] != (chains, steps):
+                    col.inconclusive_note("%s: captured trace of shape %s cannot be mapped to the record's alleles" % (where, g.shape))
+                    continue
+                lab = np.array(labels)
+                kept = [[allele_key(lab[row].tolist()) for row in g[ch, burn:]] for ch in range(chains)]
+                emp = Emp(kept)
+                col.count("prog_traces_checked")
+                if len(labels) < n_full:
+                    col.count("prog_traces_relabelled_after_masking")
+                sd = out.samples[smp]
+                # what the program documents and prints: SPM = frequency of the most frequent ALLELE SET, GT = the most
+                # frequent genotype with that allele set, GPM = that genotype's frequency (ties leave the choice open)
+                sc = emp.supports()
+                smx = max(sc.values())
+                best_sets = [S_ for S_, c_ in sc.items() if c_ == smx]
+                msg = None
+                gt, _ = out.gt(smp)
+                gpm = float(sd["GPM"]) if sd.get("GPM") not in (None, ".") else None
+                spm = float(sd["SPM"]) if sd.get("SPM") not in (None, ".") else None
+                if spm is None or abs(spm - smx / emp.n) > 5.1e-4:
+                    msg = "SPM %r, the most frequent allele set among the %d retained steps has frequency %.6f" % (sd.get("SPM"), emp.n, smx / emp.n)
+                elif gt is None or None in gt:
+                    msg = "GT %s although the sampler ran" % sd.get("GT")
+                else:
+                    col.count("prog_modes_checked")
+                    k = allele_key(gt)
+                    if frozenset(k) not in best_sets or k not in emp.counts:
+                        msg = "GT %s: its allele set has %d of %d retained steps, the best allele set has %d" % (sd.get("GT"), sc.get(frozenset(k), 0), emp.n, smx)
+                    else:
+                        bm = max(c_ for g_, c_ in emp.counts.items() if frozenset(g_) == frozenset(k))
+                        if emp.counts[k] != bm:
+                            msg = "GT %s has %d retained steps but a genotype with the same alleles has %d" % (sd.get("GT"), emp.counts[k], bm)
+                        elif gpm is None or abs(gpm - emp.counts[k] / emp.n) > 5.1e-4:
+                            msg = "GPM %r, GT %s has frequency %.6f among the %d retained steps" % (sd.get("GPM"), sd.get("GT"), emp.counts[k] / emp.n, emp.n)
+                if msg is None:
+                    us = emp.unit_stats()
+                    for key, idx, scale in (("ACP", 0, 1.0), ("AFP", 0, 1.0 / c["ploidy"]), ("AOP", 1, 1.0)):
+                        got = out.sample_list(smp, key)
+                        want = [us.get(a, (0.0, 0.0))[idx] * scale for a in range(n_full)]
+                        col.count("prog_allele_vectors_checked")
+                        if got is None or len(got) != n_full or any(x is None for x in got) or max(abs(a - b) for a, b in zip(got, want)) > 5.1e-4:
+                            msg = "%s %s, the retained steps give %s" % (key, sd.get(key), [round(x, 4) for x in want])
+                            break
+                if msg is None and chains >= 1:
+                    allowed, _ = incongruence_allowed(emp.per_chain, c["ploidy"], thr)
+                    if allowed is not None:
+                        col.count("prog_mci_checked")
+                        mci = sd.get("MCI")
+                        if mci in (None, ".") or int(float(mci)) not in allowed:
+                            msg = "MCI %r with --mcmc-chain-incongruence-threshold %r, admissible %s (per-chain mode supports %s)" % (
+                                mci, thr, sorted(allowed), [sorted(max(support_counts(pc).items(), key=lambda kv: kv[1])[0]) for pc in emp.per_chain])
+                if msg:
+                    col.violation("program-summary-not-functional-of-retained-trace", "%s: %s" % (where, msg), case)
+                    stop = True
+                    break
+        if dI == 0 and spec["shard"] == 40:
+            col.sample({"family": "prog", "argv_tail": argv[-14:], "samplers_observed": len(captured)})
+        shutil.rmtree(root, ignore_errors=True)
+
+
 def run_shard(tier, seed, spec, col):
+    if spec.get("kind") == "prog":
+        return run_prog(tier, seed, spec, col)
     shard = spec["shard"]
     # real samplers first: their kernels are what a warm-up shard has to compile
     for family in ("realcall", "realped", "hap", "allele", "ped"):
